@@ -563,11 +563,11 @@ class TreeGen:
             if force and n == 0 and hi > 0:
                 n = 1
             if sn.userord and sn.ty.name == "string" and rng.random() < 0.9:
-                pool = [v for v in pool if v != b""]                  # "" cannot be a yang:value anchor (finding F52): keep it rare
+                pool = [v for v in pool if v != b""]                  # "" cannot be a yang:value anchor (finding F122): keep it rare
             if sn.config or rng.random() < 0.85:
                 vals = rng.sample(pool, min(n, len(pool)))
             else:
-                vals = [rng.choice(pool[:4]) for _ in range(n)]       # duplicates are allowed in state leaf-lists (finding F53)
+                vals = [rng.choice(pool[:4]) for _ in range(n)]       # duplicates are allowed in state leaf-lists (finding F123)
             return [DN(sn, v) for v in vals]
         if sn.kind == "container":
             if sn.presence:
